@@ -358,7 +358,8 @@ class VerusUnit:
                 ob.result, ob.detail = "undecided", "solver limit: " + fl[0]["desc"]
             else:
                 ob.result = "failed"
-                ob.failed_checks = [{"desc": "OB: " + f["desc"] if not f["desc"].startswith("OB:") else f["desc"], "where": f["where"]} for f in fl]
+                # a violated callee precondition is a potential panic (panic class); everything else is functional
+                ob.failed_checks = [{"desc": (f["desc"] if "precondition not satisfied" in f["desc"] else "OB: " + f["desc"]), "where": f["where"]} for f in fl]
                 ob.detail = "\n".join(f["text"] for f in fl)[:3000]
             if ob.expect_fail:
                 if ob.result == "failed":
